@@ -4,7 +4,7 @@
 (* (one FileSet) after restoring a sequence of files:                       *)
 (*   {"files":[{"base","size","lines":[..],"positions":[..],"comments":[..],*)
 (*              "rankR":[labels],"rankF":[labels],"reprint":bool,           *)
-(*              "phantom":[labels]}...]}                                     *)
+(*              "phantom":[labels],"spans":[texts]}...]}                     *)
 (* positions: every position the restorer assigned (token fields, leaf      *)
 (* strings, comments); rankR / rankF: the labels of all position fields     *)
 (* valid in both the restored ast and a fresh parse of the printed text,    *)
@@ -38,6 +38,10 @@ RankEqual == Live => \A i \in DOMAIN Rec.files : Rec.files[i].rankR = Rec.files[
 \* ... of ALL positions: the restored ast carries no token position that a fresh parse of its print lacks
 \* (a closing parenthesis position on a declaration that is printed without parentheses, ...)
 NoPhantom == Live => \A i \in DOMAIN Rec.files : Rec.files[i].phantom = <<>>
+\* a literal or comment whose text holds k line breaks ends k lines below its start in the line table
+\* (as in a parsed file, where the line table knows every line break of the source): spans lists the
+\* literals and comments for which that fails
+SpansCounted == Live => \A i \in DOMAIN Rec.files : Rec.files[i].spans = <<>>
 \* the restored ast can be printed repeatedly
 Reprintable == Live => \A i \in DOMAIN Rec.files : Rec.files[i].reprint
 
